@@ -218,3 +218,16 @@ func atomNonNil(name string, v ssa.Value) *core.Atom {
 func constInt64(o *types.Const) (int64, bool) {
 	return constant.Int64Val(constant.ToInt(o.Val()))
 }
+
+// lookupConst returns the integer value of a package-level constant.
+func lookupConst(p *core.Prog, pkg, name string) (int64, bool) {
+	pk := p.Pkgs[core.ModPath+"/"+pkg]
+	if pk == nil {
+		return 0, false
+	}
+	o, ok := pk.Types.Scope().Lookup(name).(*types.Const)
+	if !ok {
+		return 0, false
+	}
+	return constInt64(o)
+}
